@@ -992,6 +992,9 @@ class Context(MetadataContextMixin, object):
         self.enable_store_metadata = False  # Prevents overwriting cache with metadata
         self.status = Status.EVALUATION
         self.debug(f"EVALUATE {query} ")
+        if input_value is not None:
+            # a result computed from an injected input value must not be cached under the plain query
+            input_value_specified = True
 
         self.vars = Vars(vars_clone())
 
